@@ -100,6 +100,13 @@ class ScalarFunction:
             finite_diff_options["rel_step"] = finite_diff_rel_step
             finite_diff_options["abs_step"] = epsilon
             finite_diff_options["bounds"] = finite_diff_bounds
+            # variables whose bounds coincide cannot be differenced (the step adjusted
+            # to the bounds is zero -> nan); they never move, their derivative is unused
+            try:
+                fd_lb, fd_ub = finite_diff_bounds
+                fixed = np.broadcast_to(np.equal(fd_lb, fd_ub), self.x.shape)
+            except (TypeError, ValueError):
+                fixed = np.zeros(self.x.shape, dtype=bool)
 
         # Function evaluation
         def fun_wrapped(x):
@@ -147,6 +154,8 @@ class ScalarFunction:
                 self.g = approx_derivative(
                     fun_wrapped, self.x, f0=self.f, **finite_diff_options
                 )
+                if fixed.any():
+                    self.g = np.where(fixed, 0.0, self.g)
 
         self._update_grad_impl = update_grad
 
